@@ -372,10 +372,14 @@ func (runInfo *runInfoStruct) invokeMemberExpr(expr *ast.MemberExpr) {
 		return
 	}
 
-	value := runInfo.rv.MethodByName(expr.Name)
-	if value.IsValid() {
-		runInfo.rv = value
-		return
+	// (a nil value of an interface type with methods - the nil error a Go function returned - has no method to give:
+	// reflect panics when asked)
+	if runInfo.rv.Kind() != reflect.Interface || !runInfo.rv.IsNil() {
+		value := runInfo.rv.MethodByName(expr.Name)
+		if value.IsValid() {
+			runInfo.rv = value
+			return
+		}
 	}
 
 	if runInfo.rv.Kind() == reflect.Ptr {
